@@ -11,7 +11,7 @@ from mc.core import Acc, Hang, fp_hash, horizon, labella_globals, purge_labella
 ID = "C06"
 RULE = ("E-HIST: every history up to depth 5 (thorough 8) of nodes(S_i) for 4 label sets / re-presenting the same node objects "
         "reversed or rotated / compute() / set_options(cfg_j) for 4 option dicts / creating and running ANOTHER engine with "
-        "different options (3 variants, one with the lineSpacing option) / letting another engine lay out the SAME node objects / appending a label to the caller's list on one real Force engine, replayed on fresh "
+        "different options (3 variants, one with the lineSpacing option) / letting another engine lay out the SAME node objects / running a stand-alone Distributor over them / appending a label to the caller's list on one real Force engine, replayed on fresh "
         "objects, states deduplicated by a fingerprint of the engine + node graph (stubs, aliasing); at every compute() the "
         "label -> (layer, position) map must equal that of a fresh engine with the accumulated options and fresh sorted nodes, "
         "and the engine's node list must still be exactly the caller's labels. E-INPUT: every permutation (n<=3; n=4: 6 of 24 "
@@ -27,7 +27,7 @@ CFG = [{"maxPos": 10}, {"maxPos": None}, {"algorithm": "simple", "maxPos": 9}, {
 OTHER = [{"maxPos": 7, "density": 0.4, "nodeSpacing": 0, "stubWidth": 0, "algorithm": "simple"}, {"algorithm": "none", "maxPos": 50},
          {"lineSpacing": 9, "maxPos": 10}]
 OPS = ([("N", i) for i in range(len(SETS))] + [("P", "rev"), ("P", "rot"), ("C", None)] + [("O", j) for j in range(len(CFG))]
-       + [("E", j) for j in range(len(OTHER))] + [("X", 0), ("X", 2), ("A", None)])
+       + [("E", j) for j in range(len(OTHER))] + [("X", 0), ("X", 2), ("A", None), ("S", None)])
 
 
 def bounds(tier, seed):
@@ -59,6 +59,11 @@ def build(hist, sets):
                 g.nodes(nodes)
                 g.compute()
                 others.append(g)
+            continue
+        if op == "S":  # the caller runs a stand-alone Distributor over the same node objects (stubs, no layerIndex)
+            if nodes:
+                from labella.distributor import Distributor
+                Distributor({"layerWidth": 8, "density": 0.5, "stubWidth": 2}).distribute(list(nodes))
             continue
         if op == "A":  # the caller appends a label to the list it handed to nodes()
             if nodes and not any(n.idealPos == 7.5 for n in nodes):
@@ -159,7 +164,7 @@ def hist_expand(ctx, h, acc):
     h = [tuple(o) for o in h]
     succ = []
     for oi, op in enumerate(OPS):
-        if op[0] in ("P", "X", "A") and not any(o[0] == "N" for o in h):
+        if op[0] in ("P", "X", "A", "S") and not any(o[0] == "N" for o in h):
             continue
         nh = h + [op]
         bad, st = check_history(nh, ctx["sets"], acc)
